@@ -16,52 +16,7 @@ import (
 func exprStr(c *Ctx, e ast.Expr) string {
 	s := c.Print(e)
 	s = strings.Join(strings.Fields(s), "")
-	// verifTick(d) is the identity unless the build tag `verif` is on (cmd/helpers/verif_tick_off.go): the
-	// skeleton describes the product build, so the wrapper is printed as its argument
-	for verifTickIsIdentity(c) {
-		i := strings.Index(s, "verifTick(")
-		if i < 0 {
-			break
-		}
-		depth, j := 0, i+len("verifTick(")
-		for ; j < len(s); j++ {
-			if s[j] == '(' {
-				depth++
-			} else if s[j] == ')' {
-				if depth == 0 {
-					break
-				}
-				depth--
-			}
-		}
-		if j >= len(s) {
-			break
-		}
-		s = s[:i] + s[i+len("verifTick("):j] + s[j+1:]
-	}
 	return s
-}
-
-var tickIdentity = map[*Ctx]bool{}
-
-// verifTickIsIdentity: the product-build twin is literally `func verifTick(d time.Duration) time.Duration { return d }`.
-func verifTickIsIdentity(c *Ctx) bool {
-	if v, ok := tickIdentity[c]; ok {
-		return v
-	}
-	ok := false
-	if fd := c.Func("cmd/helpers/verif_tick_off.go", "verifTick"); fd != nil && fd.Body != nil && len(fd.Body.List) == 1 &&
-		fd.Type.Params != nil && len(fd.Type.Params.List) == 1 && len(fd.Type.Params.List[0].Names) == 1 {
-		if ret, isRet := fd.Body.List[0].(*ast.ReturnStmt); isRet && len(ret.Results) == 1 {
-			if id, isID := ret.Results[0].(*ast.Ident); isID && id.Name == fd.Type.Params.List[0].Names[0].Name {
-				if f := c.File("cmd/helpers/verif_tick_off.go"); f != nil && strings.Contains(c.Print(f), "!verif") {
-					ok = true
-				}
-			}
-		}
-	}
-	tickIdentity[c] = ok
-	return ok
 }
 
 func (c *Ctx) skeletonOf(body ast.Node) []string {
